@@ -70,8 +70,8 @@ def check_cost(rep, run: Run, D: Blocks, rule="BN-COST", cross=cross_spec, diag=
     # which diagram's diagonal block shares rows with the cross block is checked by BN-TILE
 
 
-def _while_of(fi) -> ast.While:
-    ws = [n for n in ast.walk(fi.node) if isinstance(n, ast.While)]
+def _while_of(fi, view=None) -> ast.While:
+    ws = [n for n in ast.walk(view if view is not None else fi.node) if isinstance(n, ast.While)]
     if len(ws) != 1:
         raise AnalysisError(f"{fi.qualname}: expected exactly one search loop, found {len(ws)}")
     return ws[0]
@@ -198,7 +198,9 @@ def _affine_of(node, name):
 
 def check_bisect(rep, run: Run, D: Blocks):
     fi = run.fi
-    w = _while_of(fi)
+    from .common import fn_view
+    view = fn_view(run.project, fi)
+    w = _while_of(fi, view)
     # roles: candidate array = name assigned in the loop from a slice of itself; probe index = subscript index of it
     cand = None
     for n in ast.walk(w):
@@ -284,7 +286,7 @@ def check_bisect(rep, run: Run, D: Blocks):
         else:
             rep.discharged("BN-BISECT", fi, accepted[0], f"`{res_name}` is only ever replaced by a feasible candidate")
         init = None
-        for st in fi.node.body:
+        for st in view.body:
             if isinstance(st, ast.Assign) and isinstance(st.targets[0], ast.Name) and st.targets[0].id == res_name:
                 init = st
         if init is not None and isinstance(init.value, ast.Subscript) and isinstance(init.value.value, ast.Name) \
